@@ -244,12 +244,30 @@ def placeholder_runs(ctx, first=PH_T0, last=PH_T1, outcome="addSuccess"):
     f = cls.own_method("run")
     if not isinstance(f, FUNC_TYPES):
         raise AnalysisError("anchor vanished: PlaceHolder.run")
-    dom = effects.EffectDomain(ctx.classes, attrs={"self": ("self",), "self._tags": PH_TAGS, "self._timestamps": ("tuple", first, last), "self._outcome": ("const", outcome),
-                                                   "self._details": PH_DETAILS},
-                               results={"self._result": [("wobj", "res")]}, log_cap=20)
+    from ..objects import ObjectDomain
+    dom = ObjectDomain(ctx.classes, attrs={"self": ("self",), "self._tags": PH_TAGS, "self._timestamps": ("tuple", first, last), "self._outcome": ("const", outcome),
+                                           "self._details": PH_DETAILS},
+                       results={"self._result": [("wobj", "res")]}, log_cap=20)
     res = effects.run(ctx, dom, f, cls, {"result": ("sym", "given-result")}, state=State(), depth=4)
     logs = []
     for r in res:
         if r.kind == "val":
-            logs.append([(n[4:], pos, kw) for n, pos, kw, tag in r.state.get("ev.calls", ()) if n.startswith("res.")])
+            logs.append([(n[4:],) + result_api_args(n[4:], pos, kw) for n, pos, kw, tag in r.state.get("ev.calls", ()) if n.startswith("res.")])
     return f, logs, len(res)
+
+
+# the TestResult API: parameters a caller may also pass by keyword
+RESULT_API = {"tags": ("new_tags", "gone_tags"), "time": ("a_datetime",), "startTest": ("test",), "stopTest": ("test",), "addSuccess": ("test",), "addError": ("test", "err"),
+              "addFailure": ("test", "err"), "addSkip": ("test", "reason"), "addExpectedFailure": ("test", "err"), "addUnexpectedSuccess": ("test",)}
+
+
+def result_api_args(method, pos, kw):
+    """(positional, keyword) arguments of a TestResult API call with leading parameters given by keyword moved to their positions."""
+    names = RESULT_API.get(method, ())
+    given = dict(kw)
+    pos = list(pos)
+    for n_ in names[len(pos):]:
+        if n_ not in given:
+            break
+        pos.append(given.pop(n_))
+    return tuple(pos), tuple((k, v) for k, v in kw if k in given)
